@@ -18,3 +18,7 @@ impl Bv {
     /// growing to l bits is within A-size
     pub open spec fn grow_ok(&self, l: int) -> bool { l <= self.scap() || len_ok(l) }
 }
+impl Bv {
+    pub open spec fn alen(&self) -> usize { self.slen() }
+    pub open spec fn abit(&self, i: int) -> bool { self.sbit(i) }
+}
